@@ -615,8 +615,8 @@ def prevalidated(ctx, o, eff):
             cap.replay(o)
     # ids: duplicates inside the argument are part of _has_id_intersection
     # (the module helper may have been moved into the class as a private static method: Task.__has_id_intersection)
-    h = prog.funcs.get('task._has_id_intersection') or prog.funcs.get('task.Task.__has_id_intersection') or \
-        prog.func('task._has_id_intersection')
+    from .c05_util import id_test_func
+    h = id_test_func(prog)
     verdict, node, why = _duplicate_id_check(ctx, h)
     if verdict is True:
         o.site(h, h.node, "the group id check also rejects equal ids inside the argument (element k+1 is then compatible with the tree that "
